@@ -1,4 +1,75 @@
-/- Line protocol of C18: placeholder until the model of this property is built. -/
+import BertE.Gen.Names
+import BertE.Model.Names
+/- Line protocol for branch names. Names travel hex-encoded (two hex digits per character, code < 256),
+   so that any printable or non-printable ASCII name survives the space/newline framing.
+     `cls <hexname>`                    -> parse
+     `rtw <hexversion> <hexsrc>`        -> `<hex of mkIntegration> ` ++ parse of it
+     `rtqw <pr> <hexversion> <hexsrc>`  -> `<hex of mkQInt> ` ++ parse of it
+     `rtq <hexversion>`                 -> `<hex of mkQueue> ` ++ parse of it
+   parse = `reject` | `<ClassName> prefix label version major minor micro hfrev pr_id feature_branch
+   jira_issue_key jira_project dst_branch` with `-` for None/absent, `x<hex>` for strings, decimal for ints. -/
 namespace BertE.Drv.C18
-def handle (_args : List String) : String := "bad-op"
+open BertE.Names
+
+/-- the table of the current source; an unknown class name in the factory makes the order empty
+    (and the table obligation of `Props/C18.lean` false) -/
+def genTbl : Tbl :=
+  ⟨(BertE.Gen.Names.factoryOrder.mapM Kind.ofClassName?).getD [],
+   BertE.Gen.Names.allPrefixes.map String.toList⟩
+
+def hexVal (c : Char) : Option Nat :=
+  if c.isDigit then some (c.toNat - 48)
+  else if 'a' ≤ c ∧ c ≤ 'f' then some (c.toNat - 87)
+  else none
+
+def unhex : List Char → Option (List Char)
+  | [] => some []
+  | [_] => none
+  | a :: b :: t =>
+    match hexVal a, hexVal b, unhex t with
+    | some x, some y, some r => some (Char.ofNat (16 * x + y) :: r)
+    | _, _, _ => none
+
+def hexDigit (n : Nat) : Char := if n < 10 then Char.ofNat (48 + n) else Char.ofNat (87 + n)
+
+def hex (l : List Char) : String :=
+  String.ofList (l.flatMap fun c => [hexDigit (c.toNat / 16 % 16), hexDigit (c.toNat % 16)])
+
+def showS : Option (List Char) → String
+  | none => "-"
+  | some l => "x" ++ hex l
+
+def showN : Option Nat → String
+  | none => "-"
+  | some n => toString n
+
+def showParsed : Option Parsed → String
+  | none => "reject"
+  | some p => " ".intercalate
+      [p.kind.className, showS p.pfx, showS p.label, showS p.version, showN p.major, showN p.minor,
+       showN p.micro, showN p.hfrev, showN p.prId, showS p.featureBranch, showS p.jiraKey,
+       showS p.jiraProject, showS p.dst]
+
+def unhexS (s : String) : Option (List Char) := unhex s.toList
+
+def handle (args : List String) : String :=
+  match args with
+  | ["cls", h] =>
+    match unhexS h with
+    | some s => showParsed (classify genTbl s)
+    | none => "bad-op"
+  | ["rtw", hv, hs] =>
+    match unhexS hv, unhexS hs with
+    | some v, some s => let n := mkIntegration v s; hex n ++ " " ++ showParsed (classify genTbl n)
+    | _, _ => "bad-op"
+  | ["rtqw", pr, hv, hs] =>
+    match pr.toNat?, unhexS hv, unhexS hs with
+    | some k, some v, some s => let n := mkQInt k v s; hex n ++ " " ++ showParsed (classify genTbl n)
+    | _, _, _ => "bad-op"
+  | ["rtq", hv] =>
+    match unhexS hv with
+    | some v => let n := mkQueue v; hex n ++ " " ++ showParsed (classify genTbl n)
+    | none => "bad-op"
+  | _ => "bad-op"
+
 end BertE.Drv.C18
